@@ -103,6 +103,43 @@ Json::Value gen() {
     scripts["detectors"]["d0"].append(fire ? "C" : "S");
     if (twin) scripts["detectors"]["d1"].append(fire ? "C" : "S");
   }
+  sc["meta"]["kill_tick"] = nticks - 1;
+  // a prekill hook that takes a tick or two per victim: the walk is spread over several ticks (the
+  // detector stays silent afterwards, the suspended chain resumes by itself) and must still be one walk
+  // in rank order
+  // (only for the plugins whose metric does not depend on the tick: a walk resumed later ranks the
+  // groups it descends into with that later tick's rates and averages)
+  if ((plugin == "kill_by_swap_usage" || plugin == "kill_by_pressure") && P(60)) {
+    Json::Value h(Json::objectValue);
+    h["name"] = "vp_hook";
+    h["args"]["id"] = "h0";
+    h["args"]["cgroup"] = P(70) ? "/" : "*,*/*,*/*/*";
+    cfg["prekill_hooks"].append(h);
+    cfg["rulesets"][0]["prekill_hook_timeout"] = "600";
+    if (twin) cfg["rulesets"][1]["prekill_hook_timeout"] = "600";
+    sc["config"] = cfg;
+    Json::Value polls(Json::arrayValue);
+    int n = R(1, 3);
+    for (int i = 0; i < n; i++) polls.append(P(25) ? 0 : R(1, 2));
+    scripts["hooks"]["h0"]["polls"] = polls;
+    // one walk only: no kill cycle may be under way when the judged tick begins
+    for (int t = 0; t < nticks - 1; t++) {
+      bool sampling = plugin == "kill_by_pg_scan" && t == nticks - 2;
+      if (!sampling) {
+        scripts["detectors"]["d0"][t] = "S";
+        if (twin) scripts["detectors"]["d1"][t] = "S";
+      }
+    }
+    for (int k = 0; k < 12; k++) {
+      Json::Value tick(Json::objectValue);
+      tick["adv_ms"] = 5000;
+      tick["ops"] = Json::Value(Json::arrayValue);
+      ticks.append(tick);
+      scripts["detectors"]["d0"].append("S");
+      if (twin) scripts["detectors"]["d1"].append("S");
+    }
+    sc["meta"]["hook"] = true;
+  }
   sc["ticks"] = ticks;
   sc["scripts"] = scripts;
   return sc;
@@ -188,7 +225,7 @@ Verdict run(const Json::Value& sc) {
   const Json::Value& ka = killActionOf(sc["config"]["rulesets"][0]);
   const Json::Value& args = ka["args"];
   int nticks = sc["ticks"].size();
-  int killTick = nticks - 1;
+  int killTick = sc["meta"].get("kill_tick", nticks - 1).asInt();
   Validator val;
   val.recursive = args.get("recursive", "false").asString() == "true";
   RankInput& in = val.in;
@@ -272,8 +309,17 @@ Verdict run(const Json::Value& sc) {
   in.temporal = temp;
   const Invocation* inv = nullptr;
   auto invs = segment(R);
-  for (auto& i : invs)
-    if (i.tick == killTick && i.rs == 0 && !inv) inv = &i;
+  Invocation merged;
+  for (auto& i : invs) {
+    if (i.rs != 0 || i.tick < killTick) continue;
+    if (!inv) {
+      merged = i;
+      inv = &merged;
+    } else {
+      // the same walk, resumed after a prekill hook
+      for (auto& a : i.attempts) merged.attempts.push_back(a);
+    }
+  }
   if (!inv) {
     v.discard = true;
     return v;
@@ -330,6 +376,7 @@ Verdict run(const Json::Value& sc) {
   if (n >= 1 && prefer && avoid) v.nontrivial = true;
   if (n == 0) v.labels.push_back("no_attempt");
   if (val.recursive) v.labels.push_back("recursive");
+  if (sc["meta"].get("hook", false).asBool()) v.labels.push_back(n >= 2 ? "walk_across_hook_waits" : "prekill_hook");
   return v;
 }
 
